@@ -306,6 +306,12 @@ pub fn run_prop(cli: &Cli) -> i32 {
 /// `only`: keep only violations whose signature starts with this prefix (used by ./check C12 for
 /// the clause "the service is asked about exactly the claimed user").
 pub fn run_filtered(cli: &Cli, only: Option<&str>) -> i32 {
+    run_filtered_with(cli, only, None)
+}
+
+/// `also`: further scenarios judged into the same report before the filter is applied; their
+/// violations are kept if their signature starts with the second element.
+pub fn run_filtered_with(cli: &Cli, only: Option<&str>, also: Option<(&dyn Fn(&Cli, &mut Report), &str)>) -> i32 {
     let mut report = Report::new(
         cli,
         "exploration",
@@ -355,8 +361,12 @@ pub fn run_filtered(cli: &Cli, only: Option<&str>) -> i32 {
             report.violation(&fi.signature, &fi.what, w);
         }
     }
+    let also_prefix = also.map(|(run_more, prefix)| {
+        run_more(cli, &mut report);
+        prefix
+    });
     if let Some(prefix) = only {
-        report.retain_violations(|sig| sig.starts_with(prefix));
+        report.retain_violations(|sig| sig.starts_with(prefix) || also_prefix.is_some_and(|p| sig.starts_with(p)));
     }
     report.finish()
 }
